@@ -124,7 +124,9 @@ def part_real_ghe(g, idx, res, real):
     else:
         base2 = np.array(GG.synthetic_g_lts(g, n_bh)) * float(g.uniform(1.05, 1.3))
         fam = {float(round(H * 0.6, 3)): (base2 * 0.97).tolist(), h_req: base2.tolist(), float(round(H * 1.2, 3)): (base2 * 1.02).tolist()}
-        ghe.gFunction = GG.make_gfunction(fam, ghe.B_spacing, ghe.bhe.b.r_b * float(g.uniform(0.8, 1.25)), ghe.bhe.b.D, coords)
+        rb_f = ghe.bhe.b.r_b * float(g.uniform(0.8, 1.25))
+        rb_fam = {hh: rb_f * (hh / h_req if g.random() < 0.5 else 1.0) for hh in fam} if g.random() < 0.5 else rb_f
+        ghe.gFunction = GG.make_gfunction(fam, ghe.B_spacing, rb_fam, ghe.bhe.b.D, coords)
         kind = "family-replaced"
     stored_h = min(ghe.gFunction.g_lts, key=lambda hh: abs(hh - h_req))
     if abs(stored_h - h_req) < 1e-9 * h_req:
@@ -167,8 +169,14 @@ def part_interpolation(g, res):
     res["storage_orders"].add(["ascending", "descending", "shuffled"][order])
     b = float(g.uniform(3, 9))
     r_b = float(g.uniform(0.05, 0.11))
+    # the stored radius is kept per height (library-style families with constant r_b / H, curves merged from different radii)
+    per_height_radius = len(hs) >= 2 and g.random() < 0.4
+    rb_of = {h: (float(round(r_b * h / hs[0], 6)) if per_height_radius else r_b) for h in hs}
+    if per_height_radius:
+        res["per_height_radius_families"] = res.get("per_height_radius_families", 0) + 1
     for h in hs:
-        gf = GG.make_gfunction(curves, b, r_b, 2.0, coords)  # fresh object: the interpolation table is cached per object
+        r_b = rb_of[h]
+        gf = GG.make_gfunction(curves, b, rb_of, 2.0, coords)  # fresh object: the interpolation table is cached per object
         with warnings.catch_warnings():
             warnings.simplefilter("ignore")
             try:
@@ -349,6 +357,7 @@ def check(tier, seed):
         kept.update(r["kept_counts"])
         worst_self = max(worst_self, r["selfcheck"])
         rep.count("requests_repeated_after_family_or_radius_change", r.get("requests_after_family_change", 0))
+        rep.count("families_with_a_radius_per_height", r.get("per_height_radius_families", 0))
         for k2 in ("combine_direct", "real_ghe", "sts_end_below", "sts_end_above", "interp_checked", "radius_checked", "uhtr_checked", "mift_checked"):
             rep.count(k2, r[k2])
         for k2 in ("worst_interp_err", "worst_uhtr_single", "worst_uhtr_field", "worst_mift_dev"):
